@@ -9,7 +9,7 @@
 // How the real component is driven
 //   - the real NewCachedCloudProvider(...).Run and RunMetrics, a scripted gostatsd.CloudProvider whose
 //     answer for a source is fixed for the duration of one op (so the dispatcher's grouping into batches
-//     cannot matter), rate limiter rate.Inf;
+//     cannot matter), rate limiter of burst 1 at 10^7/s (one token per provider call is always there within 100 ns; asking for more than one at once fails);
 //   - the refresh ticker: Run takes its clock from the context; the harness' clock returns the Mock's
 //     ticker with its channel replaced by an unbuffered channel of the harness, so a tick carries exactly
 //     the time the harness chooses and `tickC <- t` returns only when the owner loop has taken it;
@@ -653,7 +653,7 @@ func runCase(line string) (out string) {
 	prov := &provider{max: c.max, table: map[string]outcome{}}
 	logger := logrus.New()
 	logger.SetOutput(io.Discard)
-	ccp := cloudprovider.NewCachedCloudProvider(logger, rate.NewLimiter(rate.Inf, 1), prov, gostatsd.CacheOptions{
+	ccp := cloudprovider.NewCachedCloudProvider(logger, rate.NewLimiter(rate.Limit(1e7), 1), prov, gostatsd.CacheOptions{
 		CacheRefreshPeriod:        unit, // the Mock never advances: ticks come from the harness only
 		CacheEvictAfterIdlePeriod: time.Duration(c.idle) * unit,
 		CacheTTL:                  time.Duration(c.ttl) * unit,
